@@ -155,7 +155,12 @@ func onceRegistryKey(c *Ctx, rule string) {
 			if !ok {
 				return true
 			}
-			se, ok := ast.Unparen(ix.X).(*ast.SelectorExpr)
+			// a map that belongs to the render state: a field of it, or the result of one of its methods (lazy accessor)
+			mx := ast.Unparen(ix.X)
+			if call, isCall := mx.(*ast.CallExpr); isCall {
+				mx = ast.Unparen(call.Fun)
+			}
+			se, ok := mx.(*ast.SelectorExpr)
 			if !ok {
 				return true
 			}
@@ -170,7 +175,9 @@ func onceRegistryKey(c *Ctx, rule string) {
 			if !types.Identical(recv, st) {
 				return true
 			}
-			if _, isMap := sel.Obj().Type().Underlying().(*types.Map); !isMap {
+			if mt := info.TypeOf(ix.X); mt == nil {
+				return true
+			} else if _, isMap := mt.Underlying().(*types.Map); !isMap {
 				return true
 			}
 			n++
